@@ -20,6 +20,29 @@ Definition ZN : Num := {|
   leb := Z.leb; ltb := Z.ltb; eqb := Z.eqb; ofZ := fun z => z; half := 0;
   floorZ := fun x => x; ceilZ := fun x => x; rneZ := fun x => x; truncZ := fun x => x |}.
 
+(* serialisers into plain integers (so that evaluated results can be compared cheaply) *)
+Definition zs (l : list nat) : list Z := map Z.of_nat l.
+Definition ser_ring (r : @ring Z unit) : list (list Z) :=
+  match st r with
+  | SFull _ sh rows => [Z.of_nat (N r); Z.of_nat (ptr r)] :: zs sh :: rows
+  | _ => [[Z.of_nat (N r); Z.of_nat (ptr r)]]
+  end.
+Definition ser_syn (s : syn ZN) : list (list (list Z)) := [ser_ring (spk ZN s); ser_ring (cur ZN s); ser_ring (neg ZN s)].
+Definition ser_sout (o : sout ZN + err) : list (list Z) :=
+  match o with
+  | inl (SOUnit _) => [[0]]
+  | inl (SOFloat _ sh v) => [[1]; zs sh; v]
+  | inl (SOBool _ sh v) => [[2]; zs sh; v]
+  | inr _ => [[-1]]
+  end.
+Definition ser_srun (r : syn ZN * list (sout ZN + err)) := (ser_syn (fst r), map ser_sout (snd r)).
+Definition is_inl {X Y} (o : X + Y) : bool := match o with inl _ => true | inr _ => false end.
+Lemma no_raise_b outs : forallb is_inl outs = true -> no_raise ZN outs.
+Proof.
+  unfold no_raise. intros H. apply Forall_forall. intros o Ho. rewrite forallb_forall in H. specialize (H o Ho).
+  destruct o as [x|e]; [now exists x|discriminate].
+Qed.
+
 (* ---------- synapse: B = 2 samples of 2 synapses, record of 3 steps (delay 2 dt), delayed reads ---------- *)
 Definition sc0 : cfg ZN := mkCfg ZN KSingleExp [2%nat; 2%nat] 1 2 6 3 1 IPrevious 0 (Some 7) (Some false) false.
 Definition sops0 : list (sop ZN) :=
@@ -31,19 +54,18 @@ Definition sops0 : list (sop ZN) :=
 Theorem nonvacuous_synapse :
   cshape ZN sc0 = [2%nat; 2%nat] /\ Forall (sop_ok ZN 2 [2%nat]) sops0 /\
   no_raise ZN (snd (run ZN sc0 (init ZN sc0) sops0)) /\
-  (* the delayed current read differs between the two samples *)
-  nth 2 (snd (run ZN sc0 (init ZN sc0) sops0)) (inr ERuntime) = inl (SOFloat ZN [2%nat; 2%nat] [2; 0; 2; 2]) /\
+  (* the delayed current read (one selector per synapse) differs between the two samples *)
+  map ser_sout (firstn 1 (skipn 2 (snd (run ZN sc0 (init ZN sc0) sops0)))) = [[[1]; [2; 2]; [2; 0; 2; 2]]] /\
   (* direct evaluation: sample 1 of the batched run = the batch-1 run on sample 1 *)
-  run ZN (with_shape ZN sc0 [1%nat; 2%nat]) (init ZN (with_shape ZN sc0 [1%nat; 2%nat])) (map (psop ZN 1) sops0)
-  = (psyn ZN 1 (fst (run ZN sc0 (init ZN sc0) sops0)), map (pres ZN 1) (snd (run ZN sc0 (init ZN sc0) sops0))).
+  ser_srun (run ZN (with_shape ZN sc0 [1%nat; 2%nat]) (init ZN (with_shape ZN sc0 [1%nat; 2%nat])) (map (psop ZN 1) sops0))
+  = ser_srun (psyn ZN 1 (fst (run ZN sc0 (init ZN sc0) sops0)), map (pres ZN 1) (snd (run ZN sc0 (init ZN sc0) sops0))).
 Proof.
   split; [reflexivity|]. split.
   { unfold sops0. repeat apply Forall_cons; try apply Forall_nil; cbn [sop_ok]; auto;
       try (split; [reflexivity|repeat constructor]).
     - left. split; reflexivity.
     - right. exists 2%nat. split; reflexivity. }
-  split.
-  { unfold no_raise. vm_compute. repeat constructor; eexists; reflexivity. }
+  split; [apply no_raise_b; vm_compute; reflexivity|].
   split; vm_compute; reflexivity.
 Qed.
 
@@ -55,41 +77,61 @@ Definition kops0 : list (cop ZN) :=
   [KStep ZN [2%nat; 2%nat] [1; 0; 0; 1] []; KStep ZN [2%nat; 2%nat] [0; 1; 1; 1] []; KSynCurrent ZN; KSynSpike ZN;
    KSelector ZN; KStep ZN [2%nat; 2%nat] [1; 1; 0; 0] []; KSetDelay ZN [1; 1; 0; 2]; KStep ZN [2%nat; 2%nat] [0; 0; 0; 1] [];
    KClear ZN; KStep ZN [2%nat; 2%nat] [1; 0; 1; 0] []].
+Definition ser_cout (o : cout ZN) : list (list Z) :=
+  match o with
+  | COUnit _ => [[0]]
+  | COFloat _ v => [[1]; zs (fst v); snd v]
+  | COBool _ v => [[2]; zs (fst v); snd v]
+  | COErr _ _ => [[-1]]
+  end.
+Definition ser_conn (k : conn ZN) : list (list Z) :=
+  match k with
+  | CDense _ d => [Z.of_nat (dn_B ZN d)] :: concat (dn_w ZN d) :: (match dn_b ZN d with Some x => x | None => [] end)
+                  :: (match dn_d ZN d with Some x => concat x | None => [] end) :: []
+  | _ => []
+  end.
+Definition ser_crun (r : (conn ZN * syn ZN) * list (cout ZN)) := (ser_conn (fst (fst r)), ser_syn (snd (fst r)), map ser_cout (snd r)).
+Definition not_err (o : cout ZN) : bool := match o with COErr _ _ => false | _ => true end.
+Lemma no_raises_b outs : forallb not_err outs = true -> Forall (fun o => ~ raises ZN o) outs.
+Proof.
+  intros H. apply Forall_forall. intros o Ho. rewrite forallb_forall in H. specialize (H o Ho).
+  destruct o; cbn in *; auto; discriminate.
+Qed.
 
 Theorem nonvacuous_connection :
   conn_wf ZN 2 kd0 /\ cshape ZN kc0 = 2%nat :: conn_sh ZN kd0 /\ Forall (cop_ok ZN) kops0 /\
   takes_delayed ZN kc0 (conn_hasdelay ZN kd0) = true /\
   Forall (fun o => ~ raises ZN o) (snd (crun ZN kc0 (kd0, init ZN kc0) kops0)) /\
-  (* the delayed forward output differs between the two samples *)
-  nth 5 (snd (crun ZN kc0 (kd0, init ZN kc0) kops0)) (COUnit ZN) = COFloat ZN ([2%nat; 2%nat], [13; 27; 12; 20]) /\
-  crun ZN (with_shape ZN kc0 [1%nat; 2%nat]) (conn_B1 ZN kd0, init ZN (with_shape ZN kc0 [1%nat; 2%nat])) (map (pcop ZN 1) kops0)
-  = ((conn_B1 ZN (fst (fst (crun ZN kc0 (kd0, init ZN kc0) kops0))),
-      psyn ZN 1 (snd (fst (crun ZN kc0 (kd0, init ZN kc0) kops0)))),
-     map (pcout ZN 1) (snd (crun ZN kc0 (kd0, init ZN kc0) kops0))).
+  (* the delayed forward output (third forward call) differs between the two samples *)
+  map ser_cout (firstn 1 (skipn 5 (snd (crun ZN kc0 (kd0, init ZN kc0) kops0)))) = [[[1]; [2; 2]; [13; 27; 12; 20]]] /\
+  ser_crun (crun ZN (with_shape ZN kc0 [1%nat; 2%nat]) (conn_B1 ZN kd0, init ZN (with_shape ZN kc0 [1%nat; 2%nat]))
+                 (map (pcop ZN 1) kops0))
+  = ser_crun ((conn_B1 ZN (fst (fst (crun ZN kc0 (kd0, init ZN kc0) kops0))),
+               psyn ZN 1 (snd (fst (crun ZN kc0 (kd0, init ZN kc0) kops0)))),
+              map (pcout ZN 1) (snd (crun ZN kc0 (kd0, init ZN kc0) kops0))).
 Proof.
   split.
   { unfold kd0, conn_wf, dense_wf, dn_O. cbn. repeat split; auto. intros bv H. injection H as <-. reflexivity. }
   split; [reflexivity|]. split.
   { unfold kops0, cop_ok. repeat constructor. }
-  split; [reflexivity|]. split.
-  { vm_compute. repeat constructor; intros []. }
+  split; [reflexivity|]. split; [apply no_raises_b; vm_compute; reflexivity|].
   split; vm_compute; reflexivity.
 Qed.
 
 (* ---------- neurons: an ALIF population (2 neurons, B = 3) through eval / adapt=False calls and state edits ---------- *)
 Import C03.Neuron.
 Definition nops0 : list (op ZN) :=
-  [OpForward (Some false) true [[1; 2; 3]; [4; 5; 6]];       (* training, adaptation switched off explicitly *)
-   OpTrain false;
-   OpForward None false [[0; 9; 0]; [9; 0; 9]];              (* eval mode: adapt = None means no update *)
-   OpSetVoltage [[1; 1; 2]; [3; 5; 8]]; OpAddAdapt [[1]; [2]]; OpClear true;
-   OpLoad [[1; 2; 3]; [4; 5; 6]] [[0; 0; 1]; [1; 0; 0]] [[5]; [6]];
-   OpForward (Some false) true [[7; 7; 7]; [1; 1; 1]]].
+  [@OpForward ZN (Some false) true [[1; 2; 3]; [4; 5; 6]];       (* training, adaptation switched off explicitly *)
+   @OpTrain ZN false;
+   @OpForward ZN None false [[0; 9; 0]; [9; 0; 9]];              (* eval mode: adapt = None means no update *)
+   @OpSetVoltage ZN [[1; 1; 2]; [3; 5; 8]]; @OpAddAdapt ZN [[1]; [2]]; @OpClear ZN true;
+   @OpLoad ZN [[1; 2; 3]; [4; 5; 6]] [[0; 0; 1]; [1; 0; 0]] [[5]; [6]];
+   @OpForward ZN (Some false) true [[7; 7; 7]; [1; 1; 1]]].
 
 Theorem nonvacuous_neuron :
   has_adaptation ALIF = true /\ Forall (NeuronBatch.op_shaped ZN 3) nops0 /\ NeuronBatch.frozen ZN ALIF true nops0.
 Proof.
   split; [reflexivity|]. split.
   { unfold nops0, NeuronBatch.op_shaped, NeuronBatch.rows. repeat constructor. }
-  cbn. repeat split; auto.
+  lazy beta iota zeta delta [NeuronBatch.frozen NeuronBatch.no_update eff_adapt has_adaptation nops0]. repeat split; auto.
 Qed.
